@@ -17,8 +17,15 @@ def plans(quick):
                  checks=[dict(steps=4, slots=1, lists=[['u1', 'm12'], ['m12']])],
                  gen=dict(steps=3, slots=1, lists=[['u1', 'm12'], ['c11']], fail=False, restart=False),
                  cover_limit=100, walks=30, sim=dict(num=100, depth=10, slots=1)),
+            dict(family='deep', opts=opts,
+                 checks=[dict(steps=4, slots=1, lists=[['e1', 'e2']])],
+                 gen=dict(steps=4, slots=1, lists=[['e1', 'e2']], fail=False, restart=False), cover_limit=150, walks=40,
+                 sim=dict(num=80, depth=10, slots=1, lists=[['e1', 'e2']])),
         ]
     return [
+        dict(family='deep', opts=opts, checks=[dict(steps=5, slots=1, lists=[['e1', 'e2']])],
+             gen=dict(steps=5, slots=1, lists=[['e1', 'e2']]), walks=200, sim=dict(num=800, depth=14, slots=1)),
+    ] + [
         dict(family=f, opts=opts, checks=[dict(steps=5, slots=2)],
              gen=dict(steps=5, slots=1, lists=[l for l in ls]), walks=300, walk_len=14,
              sim=dict(num=2000, depth=16, slots=2))
@@ -28,6 +35,39 @@ def plans(quick):
     ]
 
 
+def _force_missing(_):
+    """forcing a name through a MultiChain whose member cannot resolve it: the call must fail loudly, never skip a chain"""
+    import shutil
+    from ..core import scratch
+    from ..families import FAMILIES, build_config, module_for
+    from taskchain import MultiChain
+
+    fam = FAMILIES['mounts']
+    module_for(fam)
+    root = scratch('c13-missing')
+    bad = []
+    try:
+        cfgs = [build_config(fam, rc, root / 'data', root / f'w{i}') for i, rc in enumerate(['u1', 'm12'])]
+        mc = MultiChain(cfgs)
+        before = {name: t.is_forced for c in mc.chains.values() for name, t in c.tasks.items()}
+        try:
+            mc.force(['a'])     # 'a' exists in u1, is ambiguous (n1::a / n2::a) in m12
+            raised = False
+        except Exception:  # noqa
+            raised = True
+        if not raised:
+            left = [n for c in mc.chains.values() for n, t in c.tasks.items() if n.endswith('::a') and not t.is_forced]
+            if left:
+                bad.append(('multiforce-skips-chain', f"MultiChain.force(['a']) returned normally although one member chain "
+                                                      f'cannot resolve the name; its tasks {left} were left unforced'))
+    finally:
+        shutil.rmtree(root, ignore_errors=True)
+    return bad
+
+
 def run(ctx):
+    from ..procs import run_forked
+    for cls, text in run_forked(_force_missing, None):
+        ctx.report(cls, text)
     ctx.assumptions += ['"held in memory" is read from the task object (task._data); there is no public accessor']
     run_families(ctx, plans(ctx.quick()), RELEVANT)
